@@ -12,6 +12,7 @@ from tracer import trace
 
 ID = "C03"
 THEOREMS = ["pick_is_candidate", "pick_ambiguous_raises", "pick_none_raises"]
+LEANCHECKER_MODULES = ["Fadl.Props.C03"]  # re-checked by leanchecker in the thorough tier
 RULE = (
     "generated source files (gen/layout.py) placing lambdas passed to Select/Where/SelectMany: single call; several calls "
     "on a line told apart by method name or by argument names; the same method and argument names twice on a line (must "
